@@ -87,10 +87,10 @@ func ownDUID(args []string) []byte {
 }
 
 type sidReq struct {
-	desc     string
-	wantDrop bool
+	desc      string
+	wantDrop  bool
 	crashOnly bool
-	v6type   byte
+	v6type    byte
 }
 
 func (sidEngine) Run(ctx *fw.Ctx, cs any) {
